@@ -75,7 +75,9 @@ def find_extrema(sig, fs, f_range, boundary=0, first_extrema='peak',
 
         filt_len = compute_filter_length(fs, pass_type, f_range[0], f_range[1],
                                          n_seconds=filter_kwargs.get('n_seconds', None),
-                                         n_cycles=filter_kwargs.get('n_cycles', 3))
+                                         n_cycles=filter_kwargs.get(
+                                             'n_cycles',
+                                             3 if filter_kwargs.get('n_seconds', None) is None else None))
 
         # Pad the signal
         sig = np.pad(sig, int(np.ceil(filt_len/2)), mode='constant')
